@@ -13,7 +13,7 @@ EXPLANATION = (
     "union of all of its branches in place and a repetition as its body {m,n} with the token's own bounds; (any) "
     "token::any builds one alternation holding every input tree in order, Checked::any and crate::any use it and compile "
     "that same tree.")
-RULES = "C07.ctx (TABLE), C07.union / C07.iterate (EMIT, = C01.homo), C07.flag (EMIT: a literal's case flag is independent of enclosing branches), C07.any (EFFECT+WHO)"
+RULES = "C07.whole (= C01.whole: program vs. compositional reference language on the catalogue), C07.ctx (TABLE), C07.union / C07.iterate (EMIT, = C01.homo), C07.flag (EMIT: a literal's case flag is independent of enclosing branches), C07.any (EFFECT+WHO)"
 
 
 def run(ctx):
@@ -25,6 +25,10 @@ def run(ctx):
     encoder.rule_homo(F, R)
     encoder.rule_literal_flags(F, R, "C07.flag")
     rule_any(F, R)
+    # a compositional reference language (union, m..n-fold concatenation, in place) equals the emitted program on
+    # every catalogue expression, hence wrapping / substitution / unrolling cannot change a language there (= C01.whole)
+    from . import exhaust
+    exhaust.report_query(F, R, "C07.whole", ctx.tier, "semantics", 15000, 4000)
 
 
 def rule_any(F, R):
